@@ -1,0 +1,89 @@
+//! Hooks for external runtime verification.
+//!
+//! This module only exists when the cargo feature `daachorse_verif` is enabled (it is off by
+//! default). It exposes a thread-local counter of automaton transitions taken by the search
+//! loops, an optional logical step budget, and plain-data mirrors of the internal tables that
+//! the `verif_*` accessors of both automata return. Nothing here is used by the library itself.
+
+extern crate std;
+
+use std::cell::Cell;
+
+std::thread_local! {
+    static STEPS: Cell<u64> = Cell::new(0);
+    static BUDGET: Cell<u64> = Cell::new(u64::MAX);
+}
+
+/// Message of the panic raised when the step budget is exceeded.
+pub const BUDGET_PANIC_MESSAGE: &str = "daachorse_verif: step budget exceeded";
+
+/// Returns the number of transition-loop iterations executed on this thread since the last
+/// [`reset_steps()`].
+#[must_use]
+pub fn steps() -> u64 {
+    STEPS.with(Cell::get)
+}
+
+/// Resets the transition counter of this thread to zero.
+pub fn reset_steps() {
+    STEPS.with(|s| s.set(0));
+}
+
+/// Sets (or clears) the logical step budget of this thread. When the counter exceeds the budget,
+/// the transition loop panics with [`BUDGET_PANIC_MESSAGE`] (an ordinary unwinding panic).
+pub fn set_step_budget(budget: Option<u64>) {
+    BUDGET.with(|b| b.set(budget.unwrap_or(u64::MAX)));
+}
+
+/// Called once per iteration of every transition loop.
+#[inline(always)]
+pub(crate) fn on_step() {
+    let n = STEPS.with(|s| {
+        let n = s.get().wrapping_add(1);
+        s.set(n);
+        n
+    });
+    if n > BUDGET.with(Cell::get) {
+        // Disarm the budget first so that unwinding code cannot trip over it again.
+        BUDGET.with(|b| b.set(u64::MAX));
+        panic!("{}", BUDGET_PANIC_MESSAGE);
+    }
+}
+
+/// Plain-data mirror of one double-array element. `0` stands for "none" in `base` and
+/// `output_pos`.
+#[derive(Clone, Copy, Debug, Eq, PartialEq)]
+pub struct RawState {
+    /// BASE value (0 = none).
+    pub base: u32,
+    /// CHECK value (label byte for the byte-wise automaton, parent index for the char-wise one).
+    pub check: u32,
+    /// Failure link.
+    pub fail: u32,
+    /// One-based position of the head of the output list (0 = none).
+    pub output_pos: u32,
+}
+
+/// Plain-data mirror of one output record. `0` stands for "none" in `parent`.
+#[derive(Clone, Copy, Debug)]
+pub struct RawOutput<V> {
+    /// Value associated with the pattern.
+    pub value: V,
+    /// Length of the pattern in bytes.
+    pub length: u32,
+    /// One-based position of the next record of the output list (0 = none).
+    pub parent: u32,
+}
+
+/// A table access that the search loop would perform out of bounds. Returned, never executed.
+#[derive(Clone, Copy, Debug, Eq, PartialEq)]
+pub struct VerifOob {
+    /// State whose transition was queried.
+    pub state: u32,
+    /// Label of the queried transition.
+    pub label: u32,
+    /// Index that would have been accessed.
+    pub index: u64,
+    /// Length of the accessed table.
+    pub len: u64,
+}
